@@ -1248,9 +1248,12 @@ Definition witness_tx : tx :=
 
 Lemma witness_tx_wf : tx_wf witness_tx.
 Proof.
-  unfold tx_wf, witness_tx. cbn [tx_version tx_lock tx_ins tx_outs]. repeat split; try (vm_compute; reflexivity).
-  - repeat constructor; vm_compute; reflexivity.
-  - repeat constructor; vm_compute; reflexivity.
+  unfold tx_wf, witness_tx. cbn [tx_version tx_lock tx_ins tx_outs].
+  refine (conj _ (conj _ (conj _ (conj _ (conj _ _))))); try (vm_compute; reflexivity).
+  - constructor; [|constructor]. unfold txin_wf. cbn [ti_hash ti_index ti_seq].
+    refine (conj _ (conj _ _)); vm_compute; reflexivity.
+  - constructor; [|constructor]. unfold txout_wf. cbn [to_value to_script].
+    split; vm_compute; reflexivity.
 Qed.
 
 Lemma find_and_delete_refuted : ~ find_and_delete_statement.
